@@ -83,7 +83,9 @@ CLAIMED = {
              "RedeemData::new stores (NodeBounds::v inlined at its call site) dominate, as max-plus polynomials over children's "
              "bounds and type widths, the high-water mark of the instruction template extracted from the interpreter's MIR. "
              "Plus: for_program checks limits before allocating, allocates exactly the checked sums, the guards compare the right "
-             "quantity with the right constant and fail with Err, and a BitMachine cannot be built any other way.",
+             "quantity with the right constant and fail with Err, a BitMachine cannot be built any other way, and the bound "
+             "arithmetic of every NodeBounds constructor is saturating or checked (widths saturate at usize::MAX; a plain + "
+             "panicked / wrapped on the pinned tree: repaired, F-BOUNDS-OVERFLOW).",
         note=TRUST + "Does not decide that Frame operations stay inside the frame they are given, nor the base case for jets.",
         design="3/C07"),
     "C08": dict(
@@ -213,6 +215,20 @@ CLAIMED = {
         note=TRUST + "The logos attributes are read from the source text of enum Token (rustc drops derive-helper attributes); assumes "
              "the generated lexer implements them.",
         design="3/C17"),
+    "C19": dict(
+        technique="formula extraction from MIR (terms, guard polarity, the `match deficit` as a piecewise table of intervals and affine expressions via path enumeration with interval constraints) and comparison with the formulas the property states; interval-exhaustive check of the extracted table against the CompactSize rule",
+        text="Decides that the arithmetic written in src/analysis.rs is the arithmetic the property states, for every value of its "
+             "variables: get_budget is the consensus-encoded length of the stack plus 50; is_budget_valid compares milliweight with "
+             "1000 x budget by <= with the cost on the left; cost->weight rounds up by 1000, weight->cost multiplies by 1000 and the "
+             "bitcoin::Weight conversions go through them (monotone by form); get_padding returns None exactly on the branch weight <= "
+             "budget and applies its table to weight - budget; the table, read off the MIR as intervals of the deficit with a constant / "
+             "deficit - k / saturating expression each, partitions 1..=4294968 and yields for EVERY deficit the least annex length L "
+             "with CompactSize(L) + L >= deficit (every integer of the bounded pieces checked on the extracted table, the unbounded "
+             "piece algebraically); the annex is 0x50 followed by zeros. The code is not run. Not decided: the consensus encoder "
+             "itself and the exception the property grants (item count on a CompactSize boundary).",
+        note=TRUST + "Assumes appending an L-byte item grows the encoded stack by CompactSize(L) + L bytes (1/3/5-byte CompactSize), "
+             "which is the elements/bitcoin crates' encoder, outside the analysed program.",
+        design="3/C19"),
     "C20": dict(
         technique="whole-workspace inventories over the type-checked program and clang's C AST (statics, thread_locals, lock sites, unsafe operations, Send/Sync impls) + guard-liveness lock rule",
         text="Decides race- and deadlock-freedom, from which schedule-independence follows: no explicit Send/Sync impl and no "
@@ -230,7 +246,6 @@ NOT_APPLICABLE = {
     "C06": "agreement of two interpreters' runtime verdicts over all programs/witnesses/environments: no structural clause beyond those decided under C05/C14",
     "C13": "exact coding of naturals/bit streams is numeric round-trip equality; only its guard clauses are structural and those are decided under C02",
     "C18": "index bookkeeping of PostOrderIter over all DAG shapes is an algorithmic invariant of a stateful loop; a static proxy would be a frozen fragment",
-    "C19": "sufficiency/minimality of a piecewise-affine padding formula is arithmetic over all costs and stack sizes",
 }
 
 PENDING = "check under construction in this round (see DESIGN.md section 9); not yet claimed"
